@@ -9,8 +9,12 @@ from common import Cvec, R, fl
 
 from common import hc_pre_build as pre_build  # noqa: E402,F401  (C09C18 builds on the generated run() programs)
 
-LEAN_MODULES = ["PyomaVerif.Props.C18", "PyomaVerif.Mutants.C18", "PyomaVerif.Props.C09C18", "PyomaVerif.Props.C18Contracts", "PyomaVerif.Props.C18MacLink"]
+LEAN_MODULES = ["PyomaVerif.Props.C18", "PyomaVerif.Mutants.C18", "PyomaVerif.Props.C09C18", "PyomaVerif.Props.C18Contracts", "PyomaVerif.Props.C18MacLink",
+                "PyomaVerif.Props.C18Whole"]
 THEOREMS = [
+    # depth round 2: what the whole-MPC op (mpcEig? over Rat with the integer square root) computes (Props/C18Whole.lean)
+    "PV.C18.C18_mpcEig_any_sqrt",
+    "PV.C18.C18_mpcEig_any_sqrt_exact",
     # composition C09 o C18: the kept poles satisfy the criteria for the library's own MPC/MPD definitions
     "PV.C09C18.kept_iff_of_check",
     "PV.C09C18.C09_kept_mpc",
@@ -96,7 +100,10 @@ RULE = (
     "rational squared arccos arguments; depth round: gen.MPD vs mpdClosed? over IEEE doubles (SVD step in closed form, nothing "
     "recorded; the zero shape gives NaN = none), mpd? with the recorded direction, closed-form singular values and minor direction "
     "vs np.linalg.svd, closed-form eigenvalues vs np.linalg.eigvals, gen.MPC vs mpc? fed with the closed-form eigenvalues. oracle: from the property text on gen.* only (bounds, finiteness, shape, transposition "
-    "symmetry, invariance under complex factors of modulus 1e-6..1e6, exact collinear values, MSF(v, s v) = s). "
+    "symmetry, invariance under complex factors of modulus 1e-6..1e6, exact collinear values, MSF(v, s v) = s); depth round 2: "
+    "the same checks on shapes at moduli 1e-70..1e70 and with mixed component magnitudes (1e-35..1e35) plus invariance under "
+    "the factor that moved them there; stream MPC[whole]: gen.MPC vs the single op c18_mpc_whole (mpcEig? over exact rationals) "
+    "on O(1) and scaled shapes; moduli beyond 1e75 (fourth powers outside the double range) only counted (extreme_*). "
     "distinct = distinct (function, kind, n) triples"
 )
 EXTRA_TRUSTED = [
@@ -549,9 +556,89 @@ def _corr_mpc_eigclosed(ctx, gen, g):
     ctx.count(f"corr_kind_{kind}")
 
 
+# ----------------------------------------------------------------------------- depth round 2: moduli far from O(1)
+SCALED_MODES = ["tiny", "huge", "mixed"]
+# The indicators are quotients of FOURTH powers of the components (MAC: |x.a|^2 / (x.x a.a); MPC: (l0-l1)^2/(l0+l1)^2 with
+# l ~ |phi|^2; MCF alike), so in IEEE doubles they exist only while n*|phi|^4 is representable: moduli in about
+# [1e-75, 1e75].  Judged range here: 1e-70 .. 1e70 (and, for "mixed", per-component factors 1e-35 .. 1e35).  Beyond it the
+# values are NaN/inf (measured: |phi| = 1e-78 and 1e78 already) - counted as information (`extreme_nonfinite_*`), not judged.
+EXP_JUDGED = 70.0
+EXP_MIXED = 35.0
+
+
+def gen_scaled(ctx, g, n, mode=None, base_kind=None):
+    """a shape of one of the O(1) kinds moved far from O(1): returns (phi, meta, phi0, c0)
+    tiny/huge: phi = c0 * phi0 with |c0| = 10^-(6..70) / 10^(6..70); mixed: component k times 10^U(-35, 35)
+    (c0 = None).  meta keeps the collinear description (v, c) of the SCALED shape."""
+    mode = mode or ctx.rng.choice(SCALED_MODES)
+    base_kind = base_kind or ctx.rng.choice(["gauss", "int", "unit", "zeros", "collinear", "collinear0", "const", "isotropic", "offsetg"])
+    phi0, meta0 = gen_shape(ctx, g, n, base_kind)
+    meta = dict(meta0)
+    meta["base_kind"] = base_kind
+    meta["scaled"] = mode
+    if mode == "mixed":
+        f = 10.0 ** g.uniform(-EXP_MIXED, EXP_MIXED, size=n)
+        phi = phi0 * f
+        c0 = None
+        if "v" in meta:
+            meta["v"] = meta["v"] * f
+        if base_kind == "const":
+            meta["kind"] = "collinear"  # no longer constant
+        if base_kind == "isotropic":
+            meta["kind"] = "gauss"  # no longer isotropic
+    else:
+        e = ctx.rng.uniform(6.0, EXP_JUDGED)
+        mod = 10.0 ** (-e if mode == "tiny" else e)
+        ang = ctx.rng.uniform(0, 2 * math.pi)
+        c0 = complex(mod, 0.0) if ctx.rng.random() < 0.2 else complex(mod * math.cos(ang), mod * math.sin(ang))
+        phi = c0 * phi0
+        if "v" in meta:
+            meta["c"] = meta["c"] * c0
+    return np.asarray(phi, dtype=complex), meta, phi0, c0
+
+
+def _corr_mpc_whole(ctx, gen, g):
+    """gen.MPC against the WHOLE model function mpcEig? (covariance, no-scatter branch, closed-form eigenvalues, ratio) run
+    over exact rationals by ONE driver op (c18_mpc_whole; integer-arithmetic square root at 2^-200): nothing recorded, nothing
+    composed in the harness.  Shapes: every O(1) kind and the same kinds at moduli 1e-70 .. 1e70 / mixed magnitudes."""
+    n = pick_n(ctx, 24)
+    if ctx.rng.random() < 0.5:
+        kind = ctx.rng.choice(KINDS)
+        phi, _ = gen_shape(ctx, g, n, kind)
+        tag = kind
+    else:
+        phi, meta, _, _ = gen_scaled(ctx, g, n)
+        tag = meta["scaled"] + ":" + meta["base_kind"]
+    with np.errstate(all="ignore"):
+        val = gen.MPC(phi)
+    m = ctx.model("c18_mpc_whole", phi=Cvec(phi))
+    rho = spread_ratio(phi)
+    shown = {"phi": Cvec(phi)}
+    key = ("whole", tag, n)
+    if not (rho == math.inf or rho < 1e20):
+        ctx.skipped += 1
+        ctx.count("corr_mpc_whole_skipped_spread")
+        return
+    with np.errstate(all="ignore"):
+        _S = np.cov(phi.real, phi.imag)
+    _t = float(_S[0, 0] + _S[1, 1])
+    if _t != 0.0 and not (1e-140 < _t < 1e140):
+        # the square of the (rounding-size) scatter leaves the double range: 0/0 in floating point, not judged
+        ctx.skipped += 1
+        ctx.count("corr_mpc_whole_skipped_scatter_range")
+        return
+    v = float(complex(val).real)
+    tol = 1e-12 if rho == math.inf else 1e-11
+    ok = m["mpc"] is not None and complex(val).imag == 0 and close(v, fl(m["mpc"]), tol, ctx, "corr_MPC_whole")
+    ctx.corr("MPC[whole]", ok, shown, m["mpc"], v, key)
+    ctx.count(f"corr_mpc_whole_{tag.split(':')[0] if ':' in tag else 'o1'}")
+
+
 def correspondence(ctx):
     gen = _gen()
     g = ctx.nprng()
+    for _ in range(ctx.n(120, 5000)):
+        _corr_mpc_whole(ctx, gen, g)
     for _ in range(ctx.n(150, 6000)):
         _corr_mac(ctx, gen, g)
     for _ in range(ctx.n(24, 600)):
@@ -784,6 +871,47 @@ def oracle(ctx, scale):
         check_msf(ctx, gen, phi, s, kind)
         if it < 3:
             ctx.sample({"kind": kind, "n": n, "phi_head": [str(z) for z in phi[:3]], "MPC": str(base.get("MPC")), "MPD": str(base.get("MPD"))})
+    # depth round 2: the same checks on shapes with moduli far from O(1) (1e-70 .. 1e70, mixed magnitudes 1e-35 .. 1e35),
+    # plus invariance of every indicator under the factor that moved the shape there (a product of admissible factors)
+    import warnings as _w
+
+    for it in range(ctx.n(300, 30000) * scale):
+        mode = SCALED_MODES[it % len(SCALED_MODES)]
+        n = pick_n(ctx, 64)
+        phi, meta, phi0, c0 = gen_scaled(ctx, g, n, mode)
+        psi, _ = gen_shape(ctx, g, n, ctx.rng.choice(KINDS[:7]))
+        # MPC squares the eigenvalues of the covariance, i.e. the SCATTER about the mean to the fourth power: a (nearly)
+        # constant shape has a scatter of rounding size (1e-16 |phi|) or e |phi|, whose square must stay in the double range too
+        with np.errstate(all="ignore"):
+            _S = np.cov(phi.real, phi.imag)
+        sc2 = float(_S[0, 0] + _S[1, 1])
+        if sc2 != 0.0 and not (1e-140 < sc2 < 1e140):
+            ctx.skipped += 1
+            ctx.count("oracle_scaled_skipped_scatter_range")
+            continue
+        ctx.count(f"oracle_scaled_{mode}")
+        ctx.nontrivial.add(("oracle", "scaled-" + mode, meta["base_kind"], n))
+        with np.errstate(all="ignore"), _w.catch_warnings():
+            _w.simplefilter("ignore")
+            base = check_bounds(ctx, gen, phi, meta, psi)
+            base["MAC2"] = gen.MAC(psi, phi)
+            check_scale(ctx, gen, phi, meta, psi, rand_scale(ctx, g) if mode == "mixed" else 10.0 ** ctx.rng.uniform(-2, 2) * np.exp(1j * ctx.rng.uniform(0, 6.28)), base)
+            if c0 is not None:
+                check_scale(ctx, gen, phi0, meta, psi, c0, {})
+            if "v" in meta:
+                check_collinear(ctx, gen, phi, meta)
+                if meta["base_kind"] != "const" or mode != "mixed":
+                    check_msf(ctx, gen, np.asarray(meta["v"], dtype=float), float(ctx.rng.choice([2.0, -3.0, 0.25])), "real-scaled")
+    # information only (NOT judged): beyond |phi| ~ 1e75 the fourth powers leave the double range
+    for it in range(ctx.n(24, 600)):
+        n = pick_n(ctx, 16)
+        phi0, _ = gen_shape(ctx, g, n, "gauss")
+        e = ctx.rng.uniform(78.0, 150.0) * (1 if it % 2 else -1)
+        p = 10.0 ** e * phi0
+        with np.errstate(all="ignore"), _w.catch_warnings():
+            _w.simplefilter("ignore")
+            for name, val in (("MPC", gen.MPC(p)), ("MCF", gen.MCF(p)[0]), ("MACself", gen.MAC(p, p)), ("MPD", gen.MPD(p))):
+                ctx.count(f"extreme_{'nonfinite' if not _finite(val) else 'finite'}_{name}")
     for v in ISO_FIXED:
         check_msf(ctx, gen, np.asarray(v, dtype=complex), 2.0, "isotropic-fixed")
     for _ in range(ctx.n(300, 20000) * scale):
